@@ -48,6 +48,18 @@ class C18(PipelineCheck):
               'overwriting_transformed', 'session_programs', 'session_pool_half_used',
               'driver_sessions', 'driver_pool_sessions', 'driver_programs')
     MAX_DEPTH = (1, 9)
+    COMPONENTS = {
+        'real': PipelineCheck.COMPONENTS['real'] + [
+            'hephaestus.py (main, run, run_parallel, _run, gen_program, gen_program_mul, '
+            'process_*_transformations, check_oracle*, update_stats) and '
+            'src/modules/processor.py in the P10 driver sessions (12 % of the evaluations)'],
+        'simulated': PipelineCheck.COMPONENTS['simulated'] + [
+            'P10: compiler process (scripted peer that agrees with every expectation), '
+            'multiprocessing.Pool with process-private module state per worker, time, mkdtemp'],
+        'stub': ['in the pipeline runs (88 %) the hephaestus.gen_program call pattern is '
+                 'reproduced by sim/pipeline.py', 'src/args.py configuration block mirrored by '
+                 'sim.core.apply_config'],
+    }
     tiers = {'quick': {'runs': 320, 'wall_s': 60, 'run_timeout_s': 300},
              'thorough': {'runs': 6000, 'wall_s': 1100, 'run_timeout_s': 900}}
 
